@@ -406,7 +406,7 @@ func classEx(c ExCase) fx.Class {
 }
 
 func TestControllerExchange(t *testing.T) {
-	fx.Run(t, fx.Spec[ExCase]{Prop: "C20", Name: "controller_exchange", Quick: 160, Thorough: 6000, Gen: genEx, Run: runEx, Class: classEx})
+	fx.Run(t, fx.Spec[ExCase]{Prop: "C20", Name: "controller_exchange", Journal: true, Quick: 160, Thorough: 6000, Gen: genEx, Run: runEx, Class: classEx})
 }
 
 // ---------- sub-check 2: analyzer roles under report histories -------------------------------------
@@ -646,7 +646,7 @@ func runMH(c MHCase) error {
 }
 
 func TestMakeHoleLoopback(t *testing.T) {
-	fx.Run(t, fx.Spec[MHCase]{Prop: "C20", Name: "makehole_loopback", Quick: 24, Thorough: 480, Gen: genMH, Run: runMH, ShrinkTime: "45s", Retry: true,
+	fx.Run(t, fx.Spec[MHCase]{Prop: "C20", Name: "makehole_loopback", Journal: true, Quick: 24, Thorough: 480, Gen: genMH, Run: runMH, ShrinkTime: "45s", Retry: true,
 		Class: func(c MHCase) fx.Class {
 			return fx.Class{NonTrivial: c.VShape != "easy" || c.CShape != "easy" || c.Rounds > 0, Fingerprint: fmt.Sprint(c), Labels: []string{c.VShape + "/" + c.CShape}}
 		}})
